@@ -36,7 +36,8 @@ CfgsC14 == CfgsC14base \cup { WithPerIP(c) : c \in CfgsC14base }
 ReqsC17 == { MkReq("1.1", "none", "ok", FALSE), MkReq("1.1", "none", "hijack", FALSE),
              MkReq("1.1", "none", "hijacknr", FALSE), MkReq("1.1", "close", "hijack", FALSE),
              MkReq("1.1", "Upgrade", "hijack", FALSE), MkReq("1.0", "none", "hijack", FALSE),
-             MkReq("1.1", "none", "hijack", TRUE), MkReq("1.1", "none", "nrflag", FALSE) }
+             MkReq("1.1", "none", "hijack", TRUE), MkReq("1.1", "none", "nrflag", FALSE),
+             MkReq("1.1", "none", "hijackbody", FALSE), MkReq("1.1", "none", "hijackdl", FALSE) }
 CfgsC17 == { MkCfg(dk, 0, rmu, vs, kh) : dk \in BoolSet, rmu \in BoolSet, vs \in BoolSet, kh \in BoolSet }
 
 Obs == [ cfg |-> cfg, batches |-> batches, clientClosed |-> cliClosed, clientStalled |-> cliStalled, states |-> states,
